@@ -128,6 +128,126 @@ def make(cfg):
     return Monitor(cfg)
 
 
+class RaceScenario:
+    """Two consumers of listen() on one gateway, each handling one id request, while a third line (a
+    presentation) may arrive; every transport write is a suspension point that completes ok or fails.
+    Afterwards two more requests are handled sequentially. Every id whose answer was written successfully
+    must be fresh, in range, registered, and different from every other one."""
+
+    horizon = 3000
+
+    def __init__(self, cfg: dict, loop) -> None:
+        from aiomysensors.gateway import Gateway
+
+        from ..harness import AsyncScriptTransport, drive
+
+        self.cfg = cfg
+        self.loop = loop
+        self.t = AsyncScriptTransport(loop)
+        self.gw = Gateway(self.t)
+        self.gw.protocol_version = cfg["version"]
+        agen = self.gw.listen()
+        for n in cfg["registry"]:
+            self.t.lines.append(f"{n};255;0;0;17;{cfg['version']}")
+            drive(agen.__anext__())
+        self.before = set(self.gw.nodes)
+        self.t.sync = False
+        self.lines = [f"255;{c};3;0;3;" for c in (255, 7)] + ([f"{cfg['present']};255;0;0;17;{cfg['version']}"] if cfg.get("present") else [])
+        self.delivered = 0
+        self.fail_budget = cfg.get("faults", 1)
+        self.results: list = []
+        self.nontrivial = False
+        self.tasks = [loop.create_task(self._consume(i)) for i in range(len(self.lines))]
+
+    async def _consume(self, i: int):
+        agen = self.gw.listen()
+        try:
+            m = await agen.__anext__()
+            self.results.append(("ok", i, m.message_type))
+        except Exception as exc:  # noqa: BLE001
+            self.results.append(("raise", i, type(exc).__name__))
+        finally:
+            await agen.aclose()
+
+    def enabled(self) -> list:
+        evs = []
+        if self.delivered < len(self.lines) and self.t.pending_reads:
+            evs.append("line")
+        for i in range(len(self.t.pending_writes)):
+            evs.append(f"write:{i}:ok")
+            if self.fail_budget > 0:
+                evs.append(f"write:{i}:fail")
+        return evs
+
+    def fire(self, label: str) -> None:
+        if label == "line":
+            self.t.deliver(self.lines[self.delivered])
+            self.delivered += 1
+        else:
+            _, i, how = label.split(":")
+            if len(self.t.pending_writes) > 1:
+                self.nontrivial = True  # two answers in flight
+            if how == "fail":
+                self.fail_budget -= 1
+                self.nontrivial = True
+            self.t.complete_write(int(i), ok=(how == "ok"))
+
+    def finished(self) -> bool:
+        return all(t.done() for t in self.tasks) and self.loop.ready_count() == 0
+
+    def verdict(self, hang: bool) -> list:
+        from aiomysensors.exceptions import AIOMySensorsError
+
+        from ..harness import drive
+
+        viols = []
+
+        def bad(k, what):
+            viols.append((f"C11|race-{k}", f"registry {sorted(self.before)}, lines {self.lines}: {what}", None))
+
+        if hang:
+            bad("hang", f"a consumer is stuck: results {self.results}")
+            return viols
+        for r in self.results:
+            if r[0] == "raise" and r[2] not in ("InjectedWriteFault", "TooManyNodesError"):
+                bad(f"foreign-exception:{r[2]}", f"a consumer raised {r[2]}")
+        # two more requests, sequentially, fault-free
+        self.t.sync = True
+        agen = self.gw.listen()
+        for _ in range(2):
+            self.t.lines.append("255;255;3;0;3;")
+            try:
+                drive(agen.__anext__())
+            except AIOMySensorsError:
+                agen = self.gw.listen()
+        answered = []
+        for line in self.t.done:
+            f = line.rstrip("\n").split(";", 5)
+            if f[2] == "3" and f[4] == "4" and R.PLAIN_INT.match(f[5]):
+                answered.append(int(f[5]))
+        self.answered = answered
+        for i in answered:
+            if not 1 <= i <= 254:
+                bad("id-out-of-range", f"id {i} answered")
+            if i in self.before:
+                bad("id-not-fresh", f"id {i} answered although it was registered before: {sorted(self.before)}")
+            if i not in self.gw.nodes:
+                bad("id-not-registered", f"id {i} was answered but is not in the registry {sorted(self.gw.nodes)}")
+        dup = sorted({i for i in answered if answered.count(i) > 1})
+        if dup:
+            bad("id-handed-twice", f"ids {dup} were answered more than once: answers in order {answered}")
+        if self.cfg.get("present") and self.cfg["present"] in answered:
+            bad("id-not-fresh", f"id {self.cfg['present']} was answered and is also a presented node")
+        return viols
+
+    def observation(self):
+        return {"results": sorted(map(list, self.results)), "answered": getattr(self, "answered", None), "done": list(self.t.done)}
+
+
+def make_scenario(cfg, loop):
+    return RaceScenario(cfg, loop)
+
+
 def registries(quick: bool) -> list:
     regs = []
     for r in range(len(U) + 1):
@@ -152,13 +272,19 @@ def run(ctx: core.Ctx) -> core.Report:
                 continue
             cfgs.append({"version": v, "registry": reg, "restore": rest, "present": [2, 254]})
     res = bfs.search_many(ctx, MOD, cfgs, depth)
+    from .. import explore
+
+    rcfgs = [{"version": "2.2", "registry": reg, "present": pr, "faults": 1} for reg in ([], [1], [0, 1], [253]) for pr in (None, 200)]
+    rres = explore.explore(ctx, MOD, rcfgs, 2 if ctx.quick else 4)
+    res["violations"] += rres["violations"]
+    res["transitions"] += rres["executions"]
     cov = {
         "states": res["states"],
         "transitions": res["transitions"],
         "traces_validated_against_impl": res["transitions"],
         "exhaustive": False,
         "distinct_nontrivial_transitions": res["nontrivial_transitions"],
-        "rule": f"{len(cfgs)} initial registries (every subset of {U} + dense/sparse shapes) x versions {versions}; all event sequences to depth {depth}; non-trivial = id request steps",
+        "rule": f"{len(cfgs)} initial registries (every subset of {U} + dense/sparse shapes) x versions {versions}; all event sequences to depth {depth}; non-trivial = id request steps; plus schedule exploration (two concurrent listen() consumers, suspended and failing answers, <= 2/4 early firings) of 8 scenarios",
         "bounds": {"depth": depth, "initial_registries": len(cfgs)},
         "samples": ctx.pick(res["samples"], 3),
     }
@@ -171,4 +297,8 @@ def run(ctx: core.Ctx) -> core.Report:
 
 
 def replay(data: dict) -> dict:
+    if "choices" in data:
+        from .. import explore
+
+        return explore.replay(MOD, data)
     return bfs.replay_history(MOD, data)
